@@ -67,7 +67,8 @@ def inv(total, reserved=0, min_unit=1, max_unit=16, step_size=1, allocation_rati
 def base_inv(rc, total=None):
     """Baseline inventory of a class.  One template per class, chosen so that small amounts
     (1..9) hit every single constraint in isolation somewhere in the scope:
-      VCPU          capacity = total (8 / 4): amount = total sits exactly on the boundary, max 16
+      VCPU          capacity = total (4 / 8 / 16): amount = total sits exactly on the boundary,
+                    max_unit 16, so 9 exceeds the capacity of the smaller ones and nothing else
       DISK_GB       cap 10, min 2, max 5, step 3: 2,4,5 break step only; 9 breaks max only
       SRIOV_NET_VF  cap 4, min 2: 1 breaks min only
       CUSTOM_X      total 3 reserved 1 ratio 2.0 -> cap 4: 4 fits exactly, 5 exceeds capacity only
@@ -118,28 +119,28 @@ def bases():
             _p(1, None, {'VCPU': 8, 'DISK_GB': 12}, [T_A], [a1]),
             _p(2, 1, {'SRIOV_NET_VF': 4}, [T_B], []),
             _p(3, 1, {'CUSTOM_X': 3, 'VCPU': 4}, [T_A, T_B], [a2]),
-            _p(4, None, {'VCPU': 4}, [], [a1, a2]),
+            _p(4, None, {'VCPU': 16}, [], [a1, a2]),
         ]),
         # a chain of depth 3 and a tree of depth 2
         ('nested3', [
             _p(1, None, {'DISK_GB': 12}, [], [a1]),
             _p(2, 1, {'VCPU': 8}, [T_A], []),
             _p(3, 2, {'SRIOV_NET_VF': 4}, [T_A, T_B], [a2]),
-            _p(4, None, {'VCPU': 4, 'DISK_GB': 12}, [T_B], [a1, a3]),
+            _p(4, None, {'VCPU': 16, 'DISK_GB': 12}, [T_B], [a1, a3]),
             _p(5, 4, {'CUSTOM_X': 3}, [], []),
         ]),
         # a sharing root provider and two compute roots in one aggregate
         ('sharing', [
             _p(1, None, {'DISK_GB': 12}, [SHARING, T_C], [a1]),
             _p(2, None, {'VCPU': 8}, [T_A], [a1]),
-            _p(3, None, {'VCPU': 4}, [T_A, T_B], [a1, a2]),
+            _p(3, None, {'VCPU': 16}, [T_A, T_B], [a1, a2]),
         ]),
         # nested compute tree whose *child* is the aggregate member + a sharing root + another tree
         ('nested_sharing', [
             _p(1, None, {'VCPU': 8}, [T_A], []),
             _p(2, 1, {'SRIOV_NET_VF': 4}, [T_B], [a1]),
             _p(3, None, {'DISK_GB': 12}, [SHARING], [a1]),
-            _p(4, None, {'VCPU': 4, 'DISK_GB': 12}, [], [a2]),
+            _p(4, None, {'VCPU': 16, 'DISK_GB': 12}, [], [a2]),
             _p(5, 4, {'CUSTOM_X': 3}, [T_A], []),
         ]),
         # a *child* provider carries the sharing trait; 7 providers, 3 trees, depth 3
@@ -149,7 +150,7 @@ def bases():
             _p(3, None, {'VCPU': 4}, [T_B], [a1]),
             _p(4, 3, {'SRIOV_NET_VF': 4}, [], []),
             _p(5, 4, {'CUSTOM_X': 3}, [T_A, T_B], [a3]),
-            _p(6, None, {'VCPU': 8, 'DISK_GB': 12}, [], [a1, a2]),
+            _p(6, None, {'VCPU': 16, 'DISK_GB': 12}, [], [a1, a2]),
             _p(7, 6, {'SRIOV_NET_VF': 4}, [T_A], []),
         ]),
     ]
